@@ -4,13 +4,13 @@ from vlib import b, zl
 from props import initgen
 
 CASE_TYPE = "(c5case * c5out)"
-IMPORTS = "Require Import Corr.Init."
+IMPORTS = "Require Import Corr.Init Model.Spi Model.Parallel."
 PER_SHARD = 40
 RULE = ("InterfacePixelFormat::{send_pixels, send_repeated_pixel} for Rgb565 on u8 and u16 words and Rgb666 on u8 words, through a "
         "recording interface: boundary values (single-bit components, all-ones, byte-boundary straddling greens) plus random values "
         "compared word by word; position-weighted checksums over whole raw ranges computed on both sides (quick: all 65,536 Rgb565 "
         "values on both bus widths and a 32k window of Rgb666; thorough: all 262,144 Rgb666 values too); COLMOD taken from the real "
-        "init trace of every built-in model; non-trivial = value with at least two non-zero components")
+        "init trace of every built-in model; the encoded words of a colour as a solid fill and as a per-pixel stream through the REAL SpiInterface (buffers not a multiple of the pixel size, fills larger than the buffer) and ParallelInterface (incl. colours whose outer words are equal and middle word differs), judged by the wire / strobe oracles of C06 / C07; non-trivial = value with at least two non-zero components")
 TRUSTED = ["Corr/C05.v spec_words: MIPI-DCS 16/18 bpp layouts written with shifts and masks, independently of the model"]
 ASSUMPTIONS = ["raw value <-> (r,g,b): embedded-graphics RawU16/RawU24 storage order, exercised through Rgb565::new / Rgb666::new in the harness"]
 
@@ -46,6 +46,43 @@ def gen(rng, tier, info):
         for lo, hi in ranges:
             cases.append(vlib.Case("colorsum %d %d %d %d" % (fmt, int(w16), lo, hi), "C5Sum %d %s %d %d" % (fmt, b(w16), lo, hi), "rb",
                                    tags=["sum-fmt%d%s" % (fmt, "w16" if w16 else "w8")], nontrivial=True))
+    # the encoded words through the REAL transports: a solid fill (send_repeated_pixel) and the same colour as a per-pixel
+    # stream must put the same, correctly ordered words on the SPI wire / at the WR strobes
+    def enc(fmt, w16, raw):
+        if fmt == 0:
+            return [raw] if w16 else [raw >> 8, raw & 255]
+        return [((raw >> 12) & 63) << 2, ((raw >> 6) & 63) << 2, (raw & 63) << 2]
+    for _ in range(120 if tier == "quick" else 1200):
+        fmt = rng.below(2)
+        cmax = 65535 if fmt == 0 else 262143
+        raw = rng.choice([0, cmax, 0xF81F if fmt == 0 else 0x3F03F, 0x07E0 if fmt == 0 else 0x00FC0, rng.range(0, cmax), rng.range(0, cmax)])
+        if rng.chance(1, 2):
+            bpp = 2 if fmt == 0 else 3
+            px = enc(fmt, False, raw)
+            buflen = rng.choice([bpp, bpp + 1, 2 * bpp + 1, 7, 64, 61, 512, 511])
+            cap = buflen // bpp
+            count = rng.choice([1, cap, cap + 1, 2 * cap + 1, 3 * cap, rng.range(1, 3 * cap + 2)])
+            calls_r = ["c 44 0", "r %d %d %s" % (bpp, count, " ".join(map(str, px))),
+                       "c 44 0", "p %d %d %s" % (bpp, count, " ".join(" ".join(map(str, px)) for _ in range(count))),
+                       "c 44 0", "r %d %d %s" % (bpp, count, " ".join(map(str, px)))]
+            calls_c = ["SCmd 44 []", "SRep %d %s %d" % (bpp, zl(px), count), "SCmd 44 []",
+                       "SPx %d [%s]" % (bpp, ";".join(zl(px) for _ in range(count))), "SCmd 44 []", "SRep %d %s %d" % (bpp, zl(px), count)]
+            line = "spi %d 50000 %s" % (buflen, " ".join(calls_r))
+            coq = "C5Spi {| Corr.C06.sc_buflen := %d; Corr.C06.sc_calls := [%s] |}" % (buflen, "; ".join("Corr.C06." + c for c in calls_c))
+            cases.append(vlib.Case(line, coq, rng.choice(["db", "rb"]), tags=["spi-fill-vs-stream", "fmt%d" % fmt], nontrivial=count > cap))
+        else:
+            w16 = fmt == 0 and rng.chance(1, 2)
+            px = enc(fmt, w16, raw)
+            w = 16 if w16 else 8
+            count = rng.choice([1, 2, 3, 7, 40])
+            v = rng.choice(["db", "rb"])
+            calls_r = ["c 44 0", "r %d %d %s" % (len(px), count, " ".join(map(str, px))),
+                       "c 44 0", "p %d %d %s" % (len(px), count, " ".join(" ".join(map(str, px)) for _ in range(count)))]
+            calls_c = ["((-1), false, Corr.C07.PCmd 44 [])", "((-1), false, Corr.C07.PRep %s %d)" % (zl(px), count),
+                       "((-1), false, Corr.C07.PCmd 44 [])", "((-1), false, Corr.C07.PPx [%s])" % ";".join(zl(px) for _ in range(count))]
+            line = "par %d 100000 %s" % (w, " ".join(calls_r))
+            coq = "C5Par (Corr.C07.ParCalls %d %s [%s])" % (w, "Debug" if v[0] == "d" else "Release", "; ".join(calls_c))
+            cases.append(vlib.Case(line, coq, v, tags=["par-fill-vs-stream", "fmt%d" % fmt, "same-outer" if len(px) == 3 and px[0] == px[2] != px[1] else "other"], nontrivial=True))
     # COLMOD announced by every built-in model on every interface kind it supports
     for pc in initgen.init_cases(rng, "quick", info, per_model_opts=2, ext=False):
         if "unsupported" in pc["tags"]:
@@ -58,6 +95,10 @@ def gen(rng, tier, info):
 
 
 def wrap_impl(case, impl):
+    if case.line.startswith("spi"):
+        return "C5S " + impl
+    if case.line.startswith("par"):
+        return "C5Pa (Corr.C07.ParOut " + impl + ")"
     if case.line.startswith("colorsum"):
         return "C5Z " + impl
     if case.line.startswith("color"):
